@@ -13,7 +13,7 @@ from vf.pool import ALL_VERSIONS
 from vf.run import Result
 
 
-OLD_ASM = ["2.3", "2.4", "2.5", "2.6", "3.0", "3.1", "3.2", "3.3", "3.4", "3.5"]
+OLD_ASM = ["2.0", "2.1", "2.2", "2.3", "2.4", "2.5", "2.6", "3.0", "3.1", "3.2", "3.3", "3.4", "3.5"]
 
 
 class ProgProp:
@@ -267,9 +267,10 @@ class ProgProp:
                 rep = 66000 if (vt < (3, 6) or vt >= (3, 10)) else 33000
                 fwd = "JUMP_FORWARD"
                 back = "JUMP_ABSOLUTE" if "JUMP_ABSOLUTE" in tab.opmap else "JUMP_BACKWARD"
-                items = [{"op": fwd, "arg": 0, "pre": 0, "to": 2}, {"op": "NOP", "arg": None, "pre": 0, "to": None, "rep": rep},
+                pad = "NOP" if "NOP" in tab.opmap else "POP_TOP"          # (NOP arrived in 2.4)
+                items = [{"op": fwd, "arg": 0, "pre": 0, "to": 2}, {"op": pad, "arg": None, "pre": 0, "to": None, "rep": rep},
                          {"op": fwd, "arg": 0, "pre": 0, "to": -1}, {"op": back, "arg": 0, "pre": 0, "to": 0},
-                         {"op": back, "arg": 0, "pre": 0, "to": 2}, {"op": "NOP", "arg": None, "pre": 0, "to": None}]
+                         {"op": back, "arg": 0, "pre": 0, "to": 2}, {"op": pad, "arg": None, "pre": 0, "to": None}]
                 yield {"k": "asmold" if old else "asm", "v": v, "items": items}
                 for items in ga.jump_patterns(tab):
                     yield {"k": "asmold" if old else "asm", "v": v, "items": items}
